@@ -152,3 +152,435 @@ Proof.
     + split; [|unfold shared; rewrite (proj2 (Nat.leb_le _ _)) by lia; rewrite <- andb_assoc; exact Blk].
       unfold private_copy. repeat (split; [solve [auto | lia]|]). assumption.
 Qed.
+
+(* ------------------------------------------------------------------ framework for the array functions *)
+Definition aval (hp : heap) (a : arr) : sval :=
+  match a with None => None | Some i => option_map bval (hget hp i) end.
+
+Definition hint_at (hp : heap) (a : arr) (cnt : nat) (acc : bool) : hint :=
+  match a with
+  | None => mkhint false false false 0 cnt acc
+  | Some i => match hget hp i with
+              | None => mkhint false false false 0 cnt acc
+              | Some b => mkhint (shared b) (bimm b) (bnc b) (bsize b) cnt acc
+              end
+  end.
+
+Definition blk (b : buf) : bool := shared b && bnc b && negb (bused b =? 0).
+
+Lemma blocked_blk hp i b cnt acc : hget hp i = Some b -> buf_wf b ->
+  blocked (hint_at hp (Some i) cnt acc) (bview b) = blk b.
+Proof.
+  intros E W. unfold blocked, hint_at, blk. rewrite E. cbn [hsh hnc]. rewrite (bview_length _ W). reflexivity.
+Qed.
+
+Lemma P_fresh0 hp a b' : bref b' = 1 -> buf_wf b' -> ptrans hp a (unref_opt hp a ++ [Some b']) (Some (length hp)).
+Proof.
+  intros R W. replace (length hp) with (length hp + 0) by lia. apply (P_fresh hp a 0 b' R W).
+Qed.
+
+Lemma with_private_sem hp i b need len k (Q : ares -> Prop) :
+  hget hp i = Some b -> buf_wf b -> 1 <= bref b -> bused b <= len ->
+  (need = false -> Q (k hp i)) ->
+  (need = true -> blk b = true -> Q (ARefused hp (Some i))) ->
+  (need = true -> blk b = false -> forall hp1 j b1, hget hp1 j = Some b1 ->
+     ptrans hp (Some i) hp1 (Some j) -> private_copy b b1 len -> Q (k hp1 j)) ->
+  Q (with_private hp i need len k).
+Proof.
+  intros E W R Hu H0 H1 H2. unfold with_private. destruct need; [|auto].
+  pose proof (detach_sem hp i b len E W R (or_introl Hu)) as D.
+  destruct (detach hp i len) as [[hp1 j]| |]; [|auto|contradiction].
+  destruct D as [b1 [E1 [T [PC NB]]]]. eapply H2; eauto.
+Qed.
+
+Lemma inplace_done hp a hp1 j b1 b2 :
+  ptrans hp a hp1 (Some j) -> hget hp1 j = Some b1 -> bref b1 = 1 -> bref b2 = 1 -> buf_wf b2 ->
+  ptrans hp a (hset hp1 j b2) (Some j) /\ aval (hset hp1 j b2) (Some j) = Some (bval b2).
+Proof.
+  intros T E R1 R2 W. split.
+  - eapply ptrans_trans; [exact T|]. eapply P_inplace; eauto.
+  - unfold aval. rewrite hget_hset, Nat.eqb_refl, (proj2 (Nat.ltb_lt _ _) (hget_lt _ _ _ E)). reflexivity.
+Qed.
+
+Lemma store_hset hp j b2 pos d : j < length hp ->
+  store (hset hp j b2) j pos d = (do m <- wr (bdata b2) pos d; Ok (hset hp j (set_data b2 m))).
+Proof.
+  intros H. unfold store. rewrite hget_hset, Nat.eqb_refl, (proj2 (Nat.ltb_lt _ _) H). cbn [andb].
+  destruct (wr (bdata b2) pos d); cbn [bind]; [rewrite hset_hset|..]; reflexivity.
+Qed.
+
+(* result of an array function against the specification's verdict for the target value *)
+Definition ares_ok (hp : heap) (a : arr) (r : ares) (spec : sval * outcome) (vis : bool) : Prop :=
+  match r with
+  | ADone hp' a' n => ptrans hp a hp' a' /\ spec = (aval hp' a', ODone (if vis then n else 0) 0)
+  | ARefused hp' a' => ptrans hp a hp' a' /\ spec = (aval hp a, ORefused) /\ aval hp' a' = aval hp a
+  | AFault => False
+  end.
+
+Definition aok (hp : heap) (a : arr) : Prop :=
+  forall i, a = Some i -> exists b, hget hp i = Some b /\ buf_wf b /\ 1 <= bref b.
+
+Lemma private_aval hp i b hp1 j b1 len : hget hp i = Some b -> hget hp1 j = Some b1 -> private_copy b b1 len ->
+  aval hp1 (Some j) = aval hp (Some i).
+Proof.
+  intros E E1 [_ [_ [_ [T [V _]]]]]. unfold aval. rewrite E, E1. simpl. unfold bval. rewrite T, V. reflexivity.
+Qed.
+
+(* ------------------------------------------------------------------ mpt_array_append *)
+Lemma append_at_sem hp a hp1 j b1 d :
+  ptrans hp a hp1 (Some j) -> hget hp1 j = Some b1 -> buf_wf b1 -> btr b1 = 0 ->
+  (length d <> 0 -> bref b1 = 1 /\ bused b1 + length d <= bsize b1) ->
+  ares_ok hp a (append_at hp1 j (bused b1) d) (Some (0, bview b1 ++ d), ODone 0 0) false.
+Proof.
+  intros T E W Tr Hp. unfold append_at. rewrite E.
+  destruct (Nat.eqb_spec (length d) 0) as [Z|Z].
+  - destruct d; [|discriminate]. cbn [ares_ok]. split; [exact T|].
+    rewrite app_nil_r. unfold aval. rewrite E. simpl. unfold bval. rewrite Tr. reflexivity.
+  - destruct (Hp Z) as [R S]. destruct W as [L [U A]].
+    rewrite wr_sem by lia. cbn [bind lift ares_ok].
+    set (b2 := set_used (set_data b1 _) _).
+    assert (W2 : buf_wf b2).
+    { subst b2. unfold buf_wf; bsimp. split; [len_simp; lia|]. split; [lia|intros Ht; congruence]. }
+    destruct (inplace_done hp a hp1 j b1 b2 T E R R W2) as [T2 V2].
+    split; [exact T2|]. rewrite V2. unfold bval. subst b2. bsimp. rewrite Tr.
+    repeat f_equal. unfold bview; bsimp. list_eq.
+Qed.
+
+Lemma array_append_sem hp a d cnt acc : aok hp a ->
+  ares_ok hp a (array_append hp a d) (s_append (hint_at hp a cnt acc) (aval hp a) d) false.
+Proof.
+  intros OK. unfold array_append. destruct a as [i|].
+  - destruct (OK i eq_refl) as [b [E [W R]]]. rewrite E. cbn [aval]. rewrite E. cbn [option_map].
+    unfold s_append, bval. destruct (Nat.eqb_spec (btr b) 0) as [Tr|Tr]; cbn [negb].
+    2:{ cbn [ares_ok]. split; [apply P_same|]. unfold aval. rewrite E. auto. }
+    rewrite (blocked_blk hp i b cnt acc E W).
+    apply with_private_sem with (b := b); auto; try lia.
+    + (* stays in place *)
+      intros Need. apply orb_false_elim in Need. destruct Need as [N1 N2].
+      apply Nat.ltb_ge in N1.
+      assert (BN : (blk b && negb (length d =? 0)) = false).
+      { destruct (length d =? 0); [apply andb_false_r|]. cbn [negb andb] in N2.
+        apply orb_false_elim in N2. destruct N2 as [S _]. unfold blk. rewrite S. reflexivity. }
+      rewrite BN. unfold D.
+      apply append_at_sem; auto; [apply P_same|].
+      intros Z. rewrite (proj2 (Nat.eqb_neq _ _) Z) in N2. cbn [negb andb] in N2.
+      apply orb_false_elim in N2. destruct N2 as [S _]. unfold shared in S. apply Nat.leb_gt in S.
+      destruct W as [L [U A]]. lia.
+    + (* refused: the buffer cannot be copied *)
+      intros Need B. rewrite B. cbn [andb].
+      assert (length d <> 0).
+      { intros Z. rewrite Z, Nat.eqb_refl in Need. cbn [negb andb] in Need. rewrite orb_false_r in Need. apply Nat.ltb_lt in Need. lia. }
+      rewrite (proj2 (Nat.eqb_neq _ _) H). cbn [negb ares_ok].
+      split; [apply P_same|]. unfold aval. rewrite E. auto.
+    + intros Need B hp1 j b1 E1 T PC. rewrite B. cbn [andb].
+      destruct PC as [R1 [I1 [N1 [T1 [V1 [U1 [S1 W1]]]]]]].
+      rewrite <- U1, <- V1. unfold D.
+      apply append_at_sem; auto; [congruence|]. intros _. split; [assumption|lia].
+  - cbn [aval s_append]. unfold halloc.
+    pose proof (append_at_sem hp None (hp ++ [Some (new_buf (length d) false false)]) (length hp)
+                  (new_buf (length d) false false) d) as H.
+    cbn [bused new_buf] in H. unfold D. apply H; auto.
+    + apply (P_fresh0 hp None); [reflexivity|apply new_buf_wf].
+    + rewrite hget_app_r by lia. rewrite Nat.sub_diag. reflexivity.
+    + apply new_buf_wf.
+    + intros _. split; [reflexivity|]. cbn. apply alloc_size_ge.
+Qed.
+
+(* ------------------------------------------------------------------ mpt_array_insert *)
+Lemma al3_zero t : t <> 0 -> al3 t 0 0 0 = true.
+Proof. intros H. unfold al3, aligned. rewrite Nat.mod_0_l by assumption. reflexivity. Qed.
+
+Lemma insert_at_sem hp a hp1 j b1 pos d :
+  ptrans hp a hp1 (Some j) -> hget hp1 j = Some b1 -> buf_wf b1 -> bref b1 = 1 -> bimm b1 = false ->
+  ins_total b1 pos (length d) <= bsize b1 -> aval hp a = Some (bval b1) ->
+  ares_ok hp a (insert_at hp1 j pos d)
+    (if negb (btr b1 =? 0) && negb (al3 (btr b1) (length (bview b1)) pos (length d))
+     then R (Some (bval b1)) else D (Some (btr b1, ins (bview b1) pos d))) false.
+Proof.
+  intros T E W R I S AV. unfold insert_at. rewrite E.
+  pose proof (buffer_insert_sem b1 pos d W) as B. rewrite (bview_length _ W).
+  assert (IC : ins_cond b1 pos (length d) =
+               negb (negb (btr b1 =? 0) && negb (al3 (btr b1) (bused b1) pos (length d)))).
+  { unfold ins_cond. rewrite I, (proj2 (Nat.leb_le _ _) S). cbn [negb andb].
+    destruct (Nat.eqb_spec (ins_total b1 pos (length d)) 0) as [Z|Z]; cbn [orb].
+    - assert (pos = 0 /\ length d = 0 /\ bused b1 = 0) as [-> [-> ->]].
+      { unfold ins_total in Z. destruct (Nat.ltb_spec pos (bused b1)); lia. }
+      destruct (Nat.eqb_spec (btr b1) 0); cbn [negb andb]; [reflexivity|].
+      rewrite al3_zero by assumption. reflexivity.
+    - unfold al3. destruct (btr b1 =? 0); cbn [negb andb orb]; [reflexivity|].
+      destruct (aligned (btr b1) (bused b1) && aligned (btr b1) pos && aligned (btr b1) (length d)); reflexivity. }
+  destruct (buffer_insert b1 pos (length d)) as [b2| |]; [|cbn [bind lift ares_ok]|contradiction].
+  - destruct B as [C [K B]]. rewrite IC in C. apply negb_true_iff in C. rewrite C.
+    cbn [bind]. rewrite store_hset by (apply (hget_lt _ _ _ E)).
+    destruct (wr (bdata b2) pos d) as [m| |]; try contradiction. destruct B as [W2 V2].
+    cbn [bind lift ares_ok].
+    destruct K as [K1 [K2 [K3 [K4 K5]]]].
+    destruct (inplace_done hp a hp1 j b1 (set_data b2 m) T E R ltac:(bsimp; lia) W2) as [T2 AV2].
+    split; [exact T2|]. rewrite AV2. unfold D, bval. rewrite V2. bsimp. rewrite K4. reflexivity.
+  - rewrite IC in B. apply negb_false_iff in B. rewrite B.
+    split; [exact T|]. rewrite AV. split; [reflexivity|].
+    unfold aval. rewrite E. reflexivity.
+Qed.
+
+Lemma array_insert_sem hp a pos d cnt acc : aok hp a ->
+  ares_ok hp a (array_insert hp a pos d) (s_insert (hint_at hp a cnt acc) (aval hp a) pos d) false.
+Proof.
+  intros OK. unfold array_insert. destruct a as [i|].
+  - destruct (OK i eq_refl) as [b [E [W R]]]. rewrite E. cbn [aval]. rewrite E. cbn [option_map].
+    unfold s_insert, bval. rewrite (blocked_blk hp i b cnt acc E W).
+    pose proof W as [L [U A]].
+    apply with_private_sem with (b := b); auto.
+    + destruct (Nat.ltb_spec (bused b) pos); lia.
+    + intros Need. apply negb_false_iff in Need. apply andb_prop in Need. destruct Need as [N12 N3].
+      apply andb_prop in N12. destruct N12 as [N1 N2]. apply negb_true_iff in N2, N3.
+      apply Nat.leb_le in N1.
+      assert (B0 : blk b = false) by (unfold blk; rewrite N2; reflexivity). rewrite B0.
+      unfold shared in N2. apply Nat.leb_gt in N2.
+      pose proof (insert_at_sem hp (Some i) hp i b pos d (P_same _ _) E W ltac:(lia) N3) as H.
+      unfold bval in H. apply H.
+      * unfold ins_total. destruct (Nat.ltb_spec pos (bused b)); destruct (Nat.ltb_spec (bused b) pos); lia.
+      * unfold aval. rewrite E. reflexivity.
+    + intros Need B. rewrite B. cbn [ares_ok]. split; [apply P_same|]. unfold aval. rewrite E. auto.
+    + intros Need B hp1 j b1 E1 T PC. rewrite B.
+      pose proof PC as [R1 [I1 [N1 [T1 [V1 [U1 [S1 W1]]]]]]].
+      pose proof (insert_at_sem hp (Some i) hp1 j b1 pos d T E1 W1 R1 I1) as H.
+      unfold bval in H. rewrite T1, V1 in H. apply H.
+      * unfold ins_total. rewrite U1.
+        destruct (Nat.ltb_spec pos (bused b)); destruct (Nat.ltb_spec (bused b) pos); lia.
+      * unfold aval. rewrite E. reflexivity.
+  - cbn [aval s_insert]. unfold halloc.
+    rewrite hget_app_r by lia. rewrite Nat.sub_diag. cbn [hget nth_error].
+    pose proof (alloc_size_ge (pos + length d)).
+    cbn [bdata new_buf].
+    rewrite wr_sem by (rewrite length_zeros, repeat_length; lia). cbn [bind].
+    rewrite wr_sem by (len_simp; lia). cbn [bind lift ares_ok].
+    set (nb := set_used (set_data _ _) _).
+    assert (Wn : buf_wf nb).
+    { subst nb. unfold buf_wf; bsimp. split; [len_simp; lia|]. split; [lia|intros Ht; congruence]. }
+    split.
+    + unfold hset. replace (length hp) with (length (hp ++ [])) at 1 by (rewrite app_nil_r; reflexivity).
+      rewrite app_nil_r at 1. rewrite lset_app_end.
+      apply (P_fresh0 hp None); [reflexivity|exact Wn].
+    + unfold D. f_equal. unfold aval. rewrite hget_hset, Nat.eqb_refl.
+      rewrite (proj2 (Nat.ltb_lt _ _)) by (rewrite app_length; simpl; lia).
+      cbn [andb option_map]. unfold bval. subst nb. bsimp. repeat f_equal.
+      unfold bview; bsimp. list_eq.
+Qed.
+
+(* ------------------------------------------------------------------ mpt_array_set *)
+Lemma set_at_sem hp a hp1 j b1 tr pos d :
+  ptrans hp a hp1 (Some j) -> hget hp1 j = Some b1 -> buf_wf b1 -> bref b1 = 1 ->
+  btr b1 = tr -> tr <> 0 -> pos mod tr = 0 -> length d mod tr = 0 -> pos + length d <= bsize b1 ->
+  ares_ok hp a (set_at hp1 j tr pos d) (D (Some (tr, put (bview b1) pos d))) false.
+Proof.
+  intros T E W R Tr Tn Ap Al S. unfold set_at. rewrite E.
+  pose proof (buffer_set_sem b1 tr pos d W) as B.
+  assert (C : set_cond b1 tr pos (length d) = true).
+  { unfold set_cond. rewrite (proj2 (Nat.leb_le _ _) S), Tr. cbn [andb].
+    rewrite (proj2 (Nat.eqb_neq _ _) Tn), Nat.eqb_refl. cbn [negb andb].
+    unfold aligned. rewrite Ap, Al. reflexivity. }
+  destruct (buffer_set b1 tr pos d) as [b2| |]; [|congruence|contradiction].
+  destruct B as [[K1 [K2 [K3 [K4 K5]]]] [W2 [V2 _]]]. cbn [bind lift ares_ok].
+  destruct (inplace_done hp a hp1 j b1 b2 T E R ltac:(lia) W2) as [T2 AV2].
+  split; [exact T2|]. rewrite AV2. unfold D, bval. rewrite V2, K4, Tr. reflexivity.
+Qed.
+
+Lemma mul_mod_0 a t : t <> 0 -> (a * t) mod t = 0.
+Proof. intros H. apply Nat.mod_mul. assumption. Qed.
+
+Lemma put_nil pos d : put [] pos d = zeros pos ++ d.
+Proof.
+  unfold put. cbn [length]. destruct (Nat.ltb_spec 0 pos).
+  - rewrite Nat.sub_0_r. reflexivity.
+  - assert (pos = 0) as -> by lia. simpl. rewrite skipn_nil, app_nil_r. reflexivity.
+Qed.
+
+Lemma array_set_sem hp a tr neg off d cnt acc : aok hp a ->
+  ares_ok hp a (array_set hp a tr neg off d) (s_set (hint_at hp a cnt acc) (aval hp a) tr neg off d) false.
+Proof.
+  intros OK. unfold array_set, s_set.
+  destruct (Nat.eqb_spec tr 0) as [Tn|Tn].
+  { cbn [ares_ok]. split; [apply P_same|auto]. }
+  destruct (aligned tr (length d)) eqn:Al; cbn [negb].
+  2:{ cbn [ares_ok]. split; [apply P_same|auto]. }
+  apply mod_aligned in Al.
+  destruct a as [i|].
+  - destruct (OK i eq_refl) as [b [E [W R]]]. rewrite E. cbn [aval]. rewrite E. cbn [option_map].
+    unfold bval. rewrite (bview_length _ W).
+    destruct (Nat.eqb_spec (btr b) tr) as [Tr|Tr]; cbn [negb].
+    2:{ cbn [ares_ok]. split; [apply P_same|]. unfold aval. rewrite E. auto. }
+    destruct (neg && (bused b <? off * tr)) eqn:Ng.
+    { cbn [ares_ok]. split; [apply P_same|]. unfold aval. rewrite E. auto. }
+    rewrite (blocked_blk hp i b cnt acc E W).
+    pose proof W as [L [U A]].
+    set (pos := if neg then bused b - off * tr else off * tr).
+    assert (Ap : pos mod tr = 0).
+    { subst pos. destruct neg; [|apply mul_mod_0; assumption].
+      cbn [andb] in Ng. apply Nat.ltb_ge in Ng.
+      apply aligned_sub; auto; [|apply mul_mod_0; assumption]. rewrite <- Tr. apply A. lia. }
+    apply with_private_sem with (b := b); auto.
+    + destruct (Nat.ltb_spec (pos + length d) (bused b)); lia.
+    + intros Need. apply orb_false_elim in Need. destruct Need as [N12 N3].
+      apply orb_false_elim in N12. destruct N12 as [N1 N2]. apply Nat.ltb_ge in N1.
+      assert (B0 : blk b = false) by (unfold blk; rewrite N3; reflexivity). rewrite B0.
+      unfold shared in N3. apply Nat.leb_gt in N3. rewrite Tr.
+      apply set_at_sem; auto; [apply P_same|lia].
+    + intros Need B. rewrite B. cbn [ares_ok]. split; [apply P_same|]. unfold aval. rewrite E. auto.
+    + intros Need B hp1 j b1 E1 T PC. rewrite B.
+      pose proof PC as [R1 [I1 [N1 [T1 [V1 [U1 [S1 W1]]]]]]].
+      rewrite <- V1, Tr. apply set_at_sem; auto; [congruence|].
+      destruct (Nat.ltb_spec (pos + length d) (bused b)); lia.
+  - cbn [aval]. destruct (neg && negb (off =? 0)).
+    { cbn [ares_ok]. split; [apply P_same|auto]. }
+    unfold halloc.
+    set (nb := set_tr (new_buf (off * tr + length d) false false) tr).
+    pose proof (set_at_sem hp None (hp ++ [Some nb]) (length hp) nb tr (off * tr) d) as H.
+    rewrite <- put_nil. apply H; auto.
+    + apply (P_fresh0 hp None); [reflexivity|].
+      apply buf_wf_set_tr_empty; [apply new_buf_wf|reflexivity].
+    + rewrite hget_app_r by lia. rewrite Nat.sub_diag. reflexivity.
+    + apply buf_wf_set_tr_empty; [apply new_buf_wf|reflexivity].
+    + apply mul_mod_0; assumption.
+    + subst nb. bsimp. apply alloc_size_ge.
+Qed.
+
+(* ------------------------------------------------------------------ mpt_array_slice *)
+Definition tl_of (hp : heap) (a : arr) : nat * list byte :=
+  match aval hp a with Some p => p | None => (0, []) end.
+
+Definition slice_refuse (hp : heap) (a : arr) (off len cnt : nat) (acc : bool) : bool :=
+  match a with
+  | None => false
+  | Some _ =>
+    let t := fst (tl_of hp a) in let l := snd (tl_of hp a) in
+    (negb (t =? 0) && negb (al3 t off len (length l))) || blocked (hint_at hp a cnt acc) l
+  end.
+
+(* the private, mutable, large enough buffer an accepted mpt_array_slice leaves in the array *)
+Definition sliced (hp : heap) (a : arr) (hp' : heap) (a' : arr) (off len : nat) : Prop :=
+  exists j b', a' = Some j /\ hget hp' j = Some b' /\ ptrans hp a hp' a' /\ bref b' = 1 /\ bimm b' = false /\
+    buf_wf b' /\ off + len <= bsize b' /\ btr b' = fst (tl_of hp a) /\
+    bview b' = ext (snd (tl_of hp a)) (off + len).
+
+Lemma ext_short l total : total <= length l -> ext l total = l.
+Proof. intros H. unfold ext. replace (total - length l) with 0 by lia. apply app_nil_r. Qed.
+
+Lemma extend_at_sem hp a hp1 j b1 total :
+  ptrans hp a hp1 (Some j) -> hget hp1 j = Some b1 -> buf_wf b1 -> bref b1 = 1 -> bimm b1 = false ->
+  total <= bsize b1 -> (btr b1 <> 0 -> total mod btr b1 = 0) ->
+  match extend_at hp1 j (bused b1) total with
+  | ADone hp' a' n => exists b', a' = Some j /\ hget hp' j = Some b' /\ ptrans hp a hp' a' /\ bref b' = 1 /\
+       bimm b' = false /\ buf_wf b' /\ bsize b' = bsize b1 /\ btr b' = btr b1 /\ bview b' = ext (bview b1) total
+  | _ => False
+  end.
+Proof.
+  intros T E W R I S Al. unfold extend_at. pose proof W as [L [U A]].
+  destruct (Nat.ltb_spec (bused b1) total) as [Hlt|Hge].
+  - rewrite E. pose proof (buffer_insert_sem b1 (bused b1) (zeros (total - bused b1)) W) as B.
+    rewrite length_zeros in B.
+    assert (C : ins_cond b1 (bused b1) (total - bused b1) = true).
+    { unfold ins_cond, ins_total. rewrite Nat.ltb_irrefl.
+      replace (bused b1 + (total - bused b1)) with total by lia.
+      rewrite (proj2 (Nat.eqb_neq total 0)) by lia. rewrite (proj2 (Nat.leb_le _ _) S), I. cbn [orb negb andb].
+      destruct (Nat.eqb_spec (btr b1) 0) as [Z|Z]; [reflexivity|]. cbn [orb].
+      unfold aligned. rewrite (A Z), Nat.eqb_refl.
+      rewrite (aligned_sub (btr b1) total (bused b1)) by (auto; lia). reflexivity. }
+    destruct (buffer_insert b1 (bused b1) (total - bused b1)) as [b2| |]; [|congruence|contradiction].
+    destruct B as [_ [[K1 [K2 [K3 [K4 K5]]]] B]]. cbn [bind].
+    rewrite store_hset by (apply (hget_lt _ _ _ E)).
+    destruct (wr (bdata b2) (bused b1) (zeros (total - bused b1))) as [m| |]; try contradiction.
+    destruct B as [W2 V2]. cbn [bind lift].
+    destruct (inplace_done hp a hp1 j b1 (set_data b2 m) T E R ltac:(bsimp; lia) W2) as [T2 AV2].
+    exists (set_data b2 m). split; [reflexivity|]. split.
+    { rewrite hget_hset, Nat.eqb_refl, (proj2 (Nat.ltb_lt _ _) (hget_lt _ _ _ E)). reflexivity. }
+    split; [exact T2|]. bsimp. repeat (split; [solve [auto | lia | congruence]|]).
+    rewrite V2. unfold ins, ext. rewrite (bview_length _ W), Nat.ltb_irrefl, Nat.sub_diag. reflexivity.
+  - exists b1. repeat (split; [solve [auto]|]). symmetry. apply ext_short. rewrite (bview_length _ W). lia.
+Qed.
+
+Lemma array_slice_sem hp a off len cnt acc : aok hp a ->
+  match array_slice hp a off len with
+  | ADone hp' a' n => slice_refuse hp a off len cnt acc = false /\ sliced hp a hp' a' off len
+  | ARefused hp' a' => slice_refuse hp a off len cnt acc = true /\ hp' = hp /\ a' = a
+  | AFault => False
+  end.
+Proof.
+  intros OK. unfold array_slice, slice_refuse, sliced, tl_of. destruct a as [i|].
+  - destruct (OK i eq_refl) as [b [E [W R]]]. rewrite E. cbn [aval]. rewrite E. cbn [option_map fst snd bval].
+    rewrite (blocked_blk hp i b cnt acc E W). rewrite (bview_length _ W).
+    pose proof W as [L [U A]].
+    destruct (negb (btr b =? 0) && negb (al3 (btr b) off len (bused b))) eqn:Mis.
+    { unfold al3 in Mis. rewrite Mis. auto. }
+    unfold al3 in Mis. rewrite Mis. cbn [orb].
+    assert (Al : btr b <> 0 -> (off + len) mod btr b = 0).
+    { intros Z. rewrite (proj2 (Nat.eqb_neq _ _) Z) in Mis. cbn [negb andb] in Mis.
+      apply negb_false_iff in Mis. apply andb_prop in Mis. destruct Mis as [M12 _].
+      apply andb_prop in M12. destruct M12 as [M1 M2]. apply mod_aligned in M1, M2.
+      apply aligned_add; assumption. }
+    apply with_private_sem with (b := b); auto.
+    + destruct (Nat.ltb_spec (off + len) (bused b)); lia.
+    + intros Need. apply orb_false_elim in Need. destruct Need as [N12 N3].
+      apply orb_false_elim in N12. destruct N12 as [N1 N2]. apply Nat.ltb_ge in N1.
+      assert (B0 : blk b = false) by (unfold blk; rewrite N3; reflexivity).
+      unfold shared in N3. apply Nat.leb_gt in N3.
+      pose proof (extend_at_sem hp (Some i) hp i b (off + len) (P_same _ _) E W ltac:(lia) N2 N1 Al) as X.
+      destruct (extend_at hp i (bused b) (off + len)) as [hp' a' n| |]; try contradiction.
+      split; [exact B0|]. destruct X as [b' [-> [E' [T' [R' [I' [W' [S' [T'' V']]]]]]]]].
+      exists i, b'. repeat (split; [solve [auto | lia]|]). exact V'.
+    + intros Need B hp1 j b1 E1 T PC.
+      pose proof PC as [R1 [I1 [N1 [T1 [V1 [U1 [S1 W1]]]]]]].
+      assert (S2 : off + len <= bsize b1) by (destruct (Nat.ltb_spec (off + len) (bused b)); lia).
+      pose proof (extend_at_sem hp (Some i) hp1 j b1 (off + len) T E1 W1 R1 I1 S2 ltac:(rewrite T1; exact Al)) as X.
+      rewrite U1 in X.
+      destruct (extend_at hp1 j (bused b) (off + len)) as [hp' a' n| |]; try contradiction.
+      split; [exact B|]. destruct X as [b' [-> [E' [T' [R' [I' [W' [S' [T'' V']]]]]]]]].
+      exists j, b'. repeat (split; [solve [auto | lia | congruence]|]). rewrite V', V1. reflexivity.
+  - cbn [aval fst snd]. unfold halloc.
+    rewrite hget_app_r by lia. rewrite Nat.sub_diag. cbn [hget nth_error].
+    pose proof (alloc_size_ge (off + len)). cbn [bdata new_buf].
+    rewrite wr_sem by (rewrite length_zeros, repeat_length; lia). cbn [bind lift].
+    split; [reflexivity|].
+    set (nb := set_used (set_data _ _) _).
+    assert (Wn : buf_wf nb).
+    { subst nb. unfold buf_wf; bsimp. split; [len_simp; lia|]. split; [lia|intros Ht; congruence]. }
+    exists (length hp), nb. split; [reflexivity|]. split.
+    { rewrite hget_hset, Nat.eqb_refl. rewrite (proj2 (Nat.ltb_lt _ _)) by (rewrite app_length; simpl; lia).
+      reflexivity. }
+    split.
+    { unfold hset. replace (length hp) with (length (hp ++ [])) at 1 by (rewrite app_nil_r; reflexivity).
+      rewrite app_nil_r at 1. rewrite lset_app_end.
+      apply (P_fresh0 hp None); [reflexivity|exact Wn]. }
+    subst nb. bsimp. repeat (split; [solve [auto | lia]|]).
+    unfold bview, ext; bsimp. cbn [length]. rewrite Nat.sub_0_r, app_nil_l. change (firstn 0 (repeat POISON (alloc_size (off + len)))) with (@nil N). rewrite app_nil_l. list_eq.
+Qed.
+
+(* ------------------------------------------------------------------ mpt_array_reduce *)
+Lemma array_reduce_sem hp a : aok hp a ->
+  ares_ok hp a (array_reduce hp a) (D (aval hp a)) false.
+Proof.
+  intros OK. unfold array_reduce. destruct a as [i|].
+  - destruct (OK i eq_refl) as [b [E [W R]]]. rewrite E.
+    pose proof (detach_sem hp i b (bused b) E W R (or_introl (le_n _))) as Dt.
+    destruct (detach hp i (bused b)) as [[hp1 j]| |]; [|cbn [ares_ok]; split; [apply P_same|reflexivity]|contradiction].
+    destruct Dt as [b1 [E1 [T [PC _]]]]. rewrite E1. cbn [ares_ok]. split; [exact T|].
+    unfold D. rewrite (private_aval hp i b hp1 j b1 _ E E1 PC). reflexivity.
+  - cbn [ares_ok]. split; [apply P_same|reflexivity].
+Qed.
+
+(* ------------------------------------------------------------------ the in-place buffer functions on a private buffer *)
+Lemma direct_sem hp i b (F : res buf) (spec : sval * outcome) b2v :
+  hget hp i = Some b -> bref b = 1 ->
+  match F with
+  | Ok b2 => bref b2 = 1 /\ buf_wf b2 /\ spec = (Some (bval b2), ODone 0 0)
+  | Err _ => spec = (Some (bval b), ORefused)
+  | Fault => False
+  end ->
+  b2v = tt ->
+  ares_ok hp (Some i) (lift hp (Some i) (do b1 <- F; Ok (hset hp i b1, Some i, 0))) spec false.
+Proof.
+  intros E R H _. destruct F as [b2| |]; cbn [bind lift ares_ok]; try contradiction.
+  - destruct H as [R2 [W2 ->]].
+    destruct (inplace_done hp (Some i) hp i b b2 (P_same _ _) E R R2 W2) as [T AV].
+    split; [exact T|]. rewrite AV. reflexivity.
+  - split; [apply P_same|]. unfold aval. rewrite E. auto.
+Qed.
